@@ -3,6 +3,7 @@
 package type3
 
 import (
+	"crypto/rsa"
 	"crypto/elliptic"
 	hpke "github.com/cisco/go-hpke"
 
@@ -12,6 +13,7 @@ import (
 )
 
 var _ elliptic.Curve
+var _ *rsa.PublicKey
 var _ = ecdsa.SpecVerifies
 
 var _ = tokens.SpecTokenInput
@@ -27,8 +29,14 @@ func specPadLen(k int) int {
 	return (k + 31) / 32 * 32
 }
 
+// SpecPad: the origin name followed by zero bytes up to the padded length.
+//
+//@ spec
+func SpecPad(name string) string { return name + Zeros(specPadLen(len(name))-len(name)) }
+
 //@ func padOriginName(originName string) (res []byte)
 //@ props C20 C16
+//@ ensures string(res) == SpecPad(originName)
 //@ ensures len(res) == specPadLen(len(originName))
 //@ ensures string(res[:len(originName)]) == originName
 //@ ensures forall(len(originName), len(res), func(i int) bool { return res[i] == 0 })
@@ -601,3 +609,76 @@ func specRLStateOK(s RateLimitedTokenRequestState) bool {
 //@ assigns spare(s.tokenInput)
 //@ alloc 16*len(encryptedtokenResponse) + 16*len(s.encapEnc) + 8192
 //@ end
+
+// specSenderCtx: the HPKE context a client obtains for the issuer's public name key and encapsulated key enc.
+//
+//@ spec
+func specSenderCtx(k EncapKey, enc string) Mathint {
+	return HPKECtx(KEMPubEnc(k.publicKey), enc, "TokenRequest", KEMIdOf(k.suite.KEM), KDFIdOf(k.suite.KDF), AEADIdOf(k.suite.AEAD))
+}
+
+// encryptOriginTokenRequest: the name key id is SHA-256 of the serialized name key (C18); the encrypted
+// request is the encapsulated key followed by the sealing, under the context for the issuer's public key and
+// the associated data specAAD, of the inner request token_key_id || blinded_msg || padded origin (C20: its
+// length depends on the origin name only through the padded length).
+//
+//@ func encryptOriginTokenRequest(nameKey EncapKey, tokenKeyID uint8, blindedMessage []byte, requestKey []byte, originName string) (keyID []byte, encrypted []byte, secret []byte, err error)
+//@ props C18 C20 C16
+//@ safety C20
+//@ requires specSuiteOK(nameKey.suite) && nameKey.publicKey != nil && len(originName) <= 65000
+//@ let npk = KEMNpk(KEMIdOf(nameKey.suite.KEM))
+//@ let aad = specAAD(nameKey.id, nameKey.suite, nameKey.publicKey, string(requestKey))
+//@ ensures[C18] err == nil ==> string(keyID) == SHA256(specEncapKeyEnc(nameKey.id, nameKey.suite, nameKey.publicKey)) && len(keyID) == 32 && fresh(keyID)
+//@ ensures err == nil ==> len(encrypted) >= npk && fresh(encrypted) && cap(encrypted) >= npk
+//@ ensures err == nil ==> string(encrypted[npk:]) == HPKESeal(specSenderCtx(nameKey, string(encrypted[:npk])), 0, aad, specEncInner(tokenKeyID, string(blindedMessage), SpecPad(originName)))
+//@ ensures err == nil ==> string(secret) == HPKEExport(specSenderCtx(nameKey, string(encrypted[:npk])), "TokenResponse", AEADNk(AEADIdOf(nameKey.suite.AEAD))) && fresh(secret)
+//@ assigns none
+//@ end
+
+// C20: the length of the encrypted request, hence of the whole request on the wire, depends on the origin
+// name only through its padded length (32-byte buckets).
+//
+//@ lemma props C20
+func lemmaEncryptedLenBuckets(nameKey EncapKey, id uint8, blinded1, blinded2, rk1, rk2 []byte, a, b string) {
+	Vassume(specSuiteOK(nameKey.suite) && nameKey.publicKey != nil && len(a) <= 65000 && len(b) <= 65000)
+	Vassume(len(blinded1) == len(blinded2) && specPadLen(len(a)) == specPadLen(len(b)))
+	_, e1, _, err1 := encryptOriginTokenRequest(nameKey, id, blinded1, rk1, a)
+	_, e2, _, err2 := encryptOriginTokenRequest(nameKey, id, blinded2, rk2, b)
+	Vassume(err1 == nil && err2 == nil)
+	Vassert(len(e1) == len(e2))
+}
+
+// specRLClientOK: a client as NewRateLimitedClientFromSecret builds it.
+//
+//@ spec
+func specRLClientOK(c RateLimitedClient) bool {
+	return c.curve == CurveP384() && c.secretKey != nil && c.secretKey.Curve == CurveP384() && c.secretKey.X != nil && c.secretKey.Y != nil &&
+		c.secretKey.D != nil && ECOnCurve(CurveP384(), BigVal(c.secretKey.X), BigVal(c.secretKey.Y))
+}
+
+// CreateTokenRequest: the request carries a 49-byte request key, the name key id SHA-256(EncapKey) (C18), the
+// encapsulated key followed by the sealed inner request (whose length depends on the origin name only through
+// its padded length, C20) and a 96-byte signature; the state keeps the token input
+// 0x0003 || nonce || SHA-256(challenge) || key id and is bound to the given token key. (The signature's
+// validity rests on the unverified signing path: see ecdsa.BlindKeySignWithContext.)
+//
+//@ func (c RateLimitedClient) CreateTokenRequest(challenge []byte, nonce []byte, blindKeyEnc []byte, tokenKeyID []byte, tokenKey *rsa.PublicKey, originName string, nameKey EncapKey) (s RateLimitedTokenRequestState, err error)
+//@ props C18 C20 C16
+//@ safety C20
+//@ requires specRLClientOK(c) && len(tokenKeyID) >= 1 && tokenKey != nil && specSuiteOK(nameKey.suite) && nameKey.publicKey != nil && len(originName) <= 32000
+//@ requires RSAModLen(tokenKey) <= 8192
+//@ let npk = KEMNpk(KEMIdOf(nameKey.suite.KEM))
+//@ let input = tokens.SpecTokenInput(RateLimitedTokenType, string(nonce), SHA256(string(challenge)), string(tokenKeyID))
+//@ ensures err == nil ==> s.request != nil && fresh(s.request) && s.request.raw == nil && len(s.request.RequestKey) == 49 && len(s.request.Signature) == 96
+//@ ensures[C18] err == nil ==> string(s.request.NameKeyID) == SHA256(specEncapKeyEnc(nameKey.id, nameKey.suite, nameKey.publicKey))
+//@ ensures[C20] err == nil ==> len(s.request.EncryptedTokenRequest) == npk+len(blindedMsgOf(s))+3+specPadLen(len(originName))+AEADOverhead(AEADIdOf(nameKey.suite.AEAD))
+//@ ensures err == nil ==> string(s.tokenInput) == input && s.verificationKey == tokenKey && VStKey(s.verifier) == tokenKey && VStMsg(s.verifier) == input
+//@ assigns none
+//@ end
+
+// blindedMsgOf: the blinded message of the state's request (its length is the RSA modulus size).
+//
+//@ spec
+func blindedMsgOf(s RateLimitedTokenRequestState) string {
+	return BRSABlinded(s.verificationKey, string(s.tokenInput), VStR(s.verifier), VStSalt(s.verifier))
+}
